@@ -1,7 +1,7 @@
 #!/bin/sh
 # run every claimed check (quick tier by default) on the current /repo tree; prints one line per property
 TIER=${1:-quick}
-cd /verif
+cd "$(dirname "$0")/.."
 for p in $(python3 -c "import json; print(' '.join(c['property_id'] for c in json.load(open('MANIFEST.json'))['checks']))"); do
   ./check $p --tier $TIER 2>&1 | grep -E "^(VIOLATION|KNOWN-FINDING|OK|FAIL)"
 done
